@@ -24,6 +24,7 @@ type gen struct {
 	cfg    Cfg
 	script []func(w *world, s *snap) (Op, bool) // scripted prefix; false = skip the step
 	tag    string                               // set by amount generators: which mixture component was used
+	removed map[int]*MarketCfg                  // markets removed from the params by this history (for re-adding)
 }
 
 func pick(r *Rng, xs ...string) string { return xs[r.Intn(len(xs))] }
@@ -58,7 +59,7 @@ func newGen(r *Rng) *gen {
 	g := &gen{r: r}
 	basePrices := []string{"618.13", "1.0", "0.85", "2000.0"}
 	cfs := []string{"100000000", "100000000", "1000000", "1000000000000000000"}
-	profile := r.Pick(48, 19, 15, 13, 5) // standard, wild, bad-debt script, split-valuation script, reserve-borrow script
+	profile := r.Pick(41, 16, 13, 12, 5, 6, 7) // standard, wild, bad-debt, split-valuation, reserve-borrow, market re-add, keeper-share change
 	for d := 0; d < nMkt; d++ {
 		m := MarketCfg{CF: cfs[d], LTV: pick(r, "0.5", "0.6", "0.8", "0.75"), Max: "0.0",
 			Reserve: pick(r, "0.025", "0.05", "0.1"), Keeper: pick(r, "0.05", "0.05", "0.01", "0.0"),
@@ -93,6 +94,10 @@ func newGen(r *Rng) *gen {
 		g.scriptSplitValuation()
 	case 4:
 		g.scriptReserveBorrow()
+	case 5:
+		g.scriptMarketReadd()
+	case 6:
+		g.scriptKeeperShareChange()
 	}
 	return g
 }
@@ -240,6 +245,9 @@ func (g *gen) next(w *world, s *snap, cnt *Counters) Op {
 	r := g.r
 	g.tag = ""
 	var op Op
+	if r.Chance(5, 100) {
+		return g.genParams(w, s, cnt)
+	}
 	k := r.Pick(20, 22, 14, 12, 7, 8, 11, 2, 4)
 	if (k == 3 || k == 4) && len(usersWith(s.bor)) == 0 && r.Chance(9, 10) {
 		k = 1
@@ -628,5 +636,137 @@ func (g *gen) scriptReserveBorrow() {
 		}),
 		step(func(w *world, s *snap) Op { return Op{Kind: "borrow", A: 1, Coins: one(a, big.NewInt(int64(1+r.Intn(3))))} }),
 		step(func(w *world, s *snap) Op { return Op{Kind: "block", T: 86400} }),
+	}
+}
+
+// ------------------------------------------------------------ governance parameter changes
+
+// genParams writes new hard params (one market changed, removed or re-added); a begin block
+// follows at once, as on a chain where governance acts in the end blocker.
+func (g *gen) genParams(w *world, s *snap, cnt *Counters) Op {
+	r := g.r
+	mk := copyMarkets(w.cur)
+	var gone []int
+	for d := 0; d < nMkt; d++ {
+		if mk[d] == nil {
+			gone = append(gone, d)
+		}
+	}
+	tag := ""
+	if len(gone) > 0 && r.Chance(1, 2) {
+		d := gone[r.Intn(len(gone))]
+		m := g.cfg.Markets[d]
+		if g.removed != nil && g.removed[d] != nil {
+			m = *g.removed[d]
+		}
+		mk[d] = &m
+		tag = "readd"
+	} else {
+		d := g.mktDenom()
+		for k := 0; k < 4 && mk[d] == nil; k++ {
+			d = g.mktDenom()
+		}
+		if mk[d] == nil {
+			m := g.cfg.Markets[d]
+			mk[d] = &m
+			tag = "readd"
+		} else {
+			m := *mk[d]
+			switch r.Pick(22, 18, 18, 22, 12, 8) {
+			case 0:
+				m.LTV = pick(r, "0.5", "0.6", "0.8", "0.75", "0.3", "0.9")
+				tag = "ltv"
+			case 1:
+				m.Reserve = pick(r, "0.0", "0.025", "0.1", "0.5", "1.0")
+				tag = "reserve"
+			case 2:
+				m.Base, m.Mult, m.Jump = pick(r, "0.0", "0.05", "0.5"), pick(r, "0.1", "1.0", "2.0"), pick(r, "0.5", "5.0")
+				tag = "model"
+			case 3:
+				m.Keeper = pick(r, "0.0", "0.01", "0.05", "0.1", "0.5")
+				tag = "keeper"
+			case 4:
+				if g.removed == nil {
+					g.removed = map[int]*MarketCfg{}
+				}
+				c := m
+				g.removed[d] = &c
+				mk[d] = nil
+				tag = "remove"
+			default:
+				m.LTV, m.Keeper, m.Reserve = pick(r, "0.5", "0.7"), pick(r, "0.02", "0.2"), pick(r, "0.05", "0.2")
+				tag = "several"
+			}
+			if mk[d] != nil {
+				mk[d] = &m
+			}
+		}
+	}
+	if cnt != nil {
+		cnt.Inc("gen:params:" + tag)
+	}
+	t := []int64{0, 1, 6, 3600, 86400}[r.Intn(5)]
+	g.script = append([]func(w *world, s *snap) (Op, bool){func(w *world, s *snap) (Op, bool) { return Op{Kind: "block", T: t}, true }}, g.script...)
+	return Op{Kind: "params", Mk: mk, X2: tag}
+}
+
+func stepOf(f func(w *world, s *snap) Op) func(w *world, s *snap) (Op, bool) {
+	return func(w *world, s *snap) (Op, bool) { return f(w, s), true }
+}
+
+// market re-add: a market with open positions and indexes above one is removed from the params
+// and re-added a few blocks later; nobody's claimable or owed amount may fall.
+func (g *gen) scriptMarketReadd() {
+	r := g.r
+	a, col := 2, 1 // ukava lent out, busd collateral
+	g.cfg.Markets[a].Base = pick(r, "0.5", "0.05")
+	g.cfg.Markets[a].HasMax, g.cfg.Markets[col].HasMax = false, false
+	g.cfg.Markets[col].LTV = "0.8"
+	g.cfg.MinBorrow = pick(r, "10.0", "0.0")
+	x := int64(200 + r.Intn(2000))
+	without := func(w *world) []*MarketCfg { mk := copyMarkets(w.cur); mk[a] = nil; return mk }
+	with := func(w *world) []*MarketCfg { mk := copyMarkets(w.cur); m := g.cfg.Markets[a]; mk[a] = &m; return mk }
+	g.script = []func(w *world, s *snap) (Op, bool){
+		stepOf(func(w *world, s *snap) Op { return Op{Kind: "deposit", A: 0, Coins: one(a, w.unitsFor(s, a, x, 1))} }),
+		stepOf(func(w *world, s *snap) Op { return Op{Kind: "deposit", A: 1, Coins: one(col, w.unitsFor(s, col, 2*x, 1))} }),
+		stepOf(func(w *world, s *snap) Op { return Op{Kind: "borrow", A: 1, Coins: one(a, w.unitsFor(s, a, x/2, 1))} }),
+		stepOf(func(w *world, s *snap) Op { return Op{Kind: "block", T: int64(30+r.Intn(300)) * 86400} }),
+		stepOf(func(w *world, s *snap) Op { return Op{Kind: "params", Mk: without(w), X2: "remove"} }),
+		stepOf(func(w *world, s *snap) Op { return Op{Kind: "block", T: int64(r.Intn(3)) * 3600} }),
+		stepOf(func(w *world, s *snap) Op { return Op{Kind: "block", T: int64(1+r.Intn(10)) * 86400} }),
+		stepOf(func(w *world, s *snap) Op { return Op{Kind: "params", Mk: with(w), X2: "readd"} }),
+		stepOf(func(w *world, s *snap) Op { return Op{Kind: "block", T: int64(r.Intn(2)) * 86400} }),
+		stepOf(func(w *world, s *snap) Op { return Op{Kind: "block", T: 86400} }),
+	}
+}
+
+// keeper-share change: governance changes ONLY the keeper reward of the collateral's market;
+// a liquidation after the next begin block must pay the newly configured share.
+func (g *gen) scriptKeeperShareChange() {
+	r := g.r
+	col, b := 0, 2
+	g.cfg.Markets[col].Keeper = pick(r, "0.05", "0.1")
+	g.cfg.Markets[col].LTV = "0.8"
+	g.cfg.Markets[col].HasMax, g.cfg.Markets[b].HasMax = false, false
+	g.cfg.MinBorrow = pick(r, "10.0", "0.0")
+	x := int64(200 + r.Intn(2000))
+	newShare := pick(r, "0.01", "0.0", "0.02")
+	g.script = []func(w *world, s *snap) (Op, bool){
+		stepOf(func(w *world, s *snap) Op { return Op{Kind: "deposit", A: 0, Coins: one(b, w.unitsFor(s, b, 3*x, 1))} }),
+		stepOf(func(w *world, s *snap) Op { return Op{Kind: "deposit", A: 1, Coins: one(col, w.unitsFor(s, col, x, 1))} }),
+		stepOf(func(w *world, s *snap) Op { return Op{Kind: "borrow", A: 1, Coins: one(b, w.unitsFor(s, b, x*7/10, 1))} }),
+		stepOf(func(w *world, s *snap) Op {
+			mk := copyMarkets(w.cur)
+			m := *mk[col]
+			m.Keeper = newShare
+			mk[col] = &m
+			return Op{Kind: "params", Mk: mk, X2: "keeper"}
+		}),
+		stepOf(func(w *world, s *snap) Op { return Op{Kind: "block", T: int64(r.Intn(3)) * 3600} }),
+		stepOf(func(w *world, s *snap) Op {
+			p := new(big.Int).Quo(new(big.Int).Mul(s.price[col], big.NewInt(int64(40+r.Intn(40)))), big.NewInt(100))
+			return Op{Kind: "price", D: col, X: p.String()}
+		}),
+		stepOf(func(w *world, s *snap) Op { return Op{Kind: "liquidate", A: 2, B: 1} }),
 	}
 }
